@@ -1321,6 +1321,166 @@ def multi_object_probe(ctx, rng, reps):
                                   % (change, order, [k for k, _ in bad], max(d for _, d in bad)), dict(case, differing=bad), key="multi-object:" + change)
 
 
+def zero_lag_probe(ctx, rng, reps):
+    """nugget > 0 with exact=True: the data are honoured wherever a target coincides with a conditioning location up to the
+    documented zero-lag window (|r| <= 1e-8) — conditioning locations embedded at random offsets inside larger target arrays
+    (the isometrized coordinates then differ in the last bit), single-point / few-point calls, structured grids built with
+    arange / linspace whose nodes equal the data locations only up to representation error, rotated + anisotropic models"""
+    import gstools as gs
+    eps = np.finfo(float).eps
+
+    def check(tag, csrf, fld, at, cv, model, condK, case):
+        kvar, raw = np.asarray(csrf.krige.krige_var), np.asarray(csrf.raw_field)
+        nug = model.nugget
+        for i, ix in enumerate(at):
+            kv_i = float(kvar[ix])
+            dev = abs(float(fld[ix]) - cv[i])
+            tol_var = 1e3 * eps * condK * model.sill
+            tol = 1e3 * eps * condK * (1 + float(np.max(np.abs(cv)))) + np.sqrt(max(kv_i, 0) / model.var) * abs(float(raw[ix])) + \
+                np.sqrt(min(max(kv_i, 0.0), nug) / nug) * 6 * np.sqrt(nug)
+            if not (kv_i <= tol_var and dev <= tol):
+                ctx.violation("probe: zero-lag window", "%s: conditioned field at conditioning location %d is %r, datum %r (kriging variance there %.3g, allowed %.3g)"
+                              % (tag, i, float(fld[ix]), float(cv[i]), kv_i, tol_var), dict(case, point=i), key="zero-lag:" + tag)
+                return
+    for rep in range(reps):
+        for dim in (2, 3):
+            for variant in ("Ordinary", "Simple", "Universal"):
+                mcls = [gs.Exponential, gs.Gaussian, gs.Spherical, gs.Matern][int(rng.integers(4))]
+                model = mcls(dim=dim, var=float(rng.uniform(0.5, 2)), len_scale=float(rng.uniform(0.8, 2.5)), nugget=float(rng.uniform(0.05, 0.4)),
+                             anis=[float(a) for a in rng.uniform(0.3, 0.9, dim - 1)], angles=[float(a) for a in rng.uniform(0.1, 1.4, 1 if dim == 2 else 3)])
+                nc = dim + 4
+                # data on decimal locations that grid constructors reproduce only up to representation error
+                cidx = np.array([rng.choice(np.arange(1, 40), size=nc, replace=False) for _ in range(dim)])
+                cp = cidx * 0.1                                            # e.g. 0.30000000000000004 vs np.arange(0, 4, 0.1)[3]
+                cv = rng.normal(size=nc) * 2
+                try:
+                    if variant == "Ordinary":
+                        kr = gs.krige.Ordinary(model, cp, cv, exact=True)
+                    elif variant == "Simple":
+                        kr = gs.krige.Simple(model, cp, cv, mean=float(rng.normal()), exact=True)
+                    else:
+                        kr = gs.krige.Universal(model, cp, cv, "linear", exact=True)
+                    condK = kmat_cond(kr)
+                except Exception as e:  # noqa
+                    ctx.violation("probe: zero-lag window", "exception %r" % (e,), dict(probe="zero-lag", variant=variant, dim=dim, model=repr(model)), key="zero-lag:exception")
+                    continue
+                if not condK < 1e9:
+                    continue
+                case = dict(probe="zero-lag", variant=variant, dim=dim, model=repr(model), cond_pos=cp.tolist(), cond_val=cv.tolist(), kriging_matrix_cond=condK)
+                try:
+                    # (i) embedded at random offsets in larger target arrays of different sizes; single- and few-point calls
+                    for n_before, n_after in [(int(rng.integers(1, 40)), int(rng.integers(0, 40))), (int(rng.integers(1, 9)), 0), (0, 0)]:
+                        tgt = np.hstack([rng.uniform(0, 4, size=(dim, n_before)), cp, rng.uniform(0, 4, size=(dim, n_after))])
+                        ctx.count(("zero-lag", "embedded", variant, dim), hist=dict(probe="zero-lag", kind="embedded", variant=variant, dim=dim))
+                        kr.delete_fields()
+                        c = gs.CondSRF(kr, seed=int(rng.integers(1, 9999)), mode_no=32)
+                        f = c(tgt)
+                        check("embedded", c, f, [(n_before + i,) for i in range(nc)], cv, model, condK, dict(case, offset=n_before, n_targets=tgt.shape[1]))
+                    for i in range(min(nc, 3)):                             # one conditioning location alone / with one other point
+                        for extra in (0, 1):
+                            tgt = np.hstack([rng.uniform(0, 4, size=(dim, extra)), cp[:, i:i + 1]])
+                            ctx.count(("zero-lag", "single", variant, dim), hist=dict(probe="zero-lag", kind="single/few points", variant=variant, dim=dim))
+                            kr.delete_fields()
+                            c = gs.CondSRF(kr, seed=7, mode_no=32)
+                            f = c(tgt)
+                            check("single-point", c, f, [(extra,)], cv[i:i + 1], model, condK, dict(case, target=tgt.tolist()))
+                    # (ii) structured grids whose nodes equal the data locations up to representation error
+                    for ctor in ("arange", "linspace"):
+                        axes = [np.arange(0, 4, 0.1) if ctor == "arange" else np.linspace(0, 3.9, 40) for _ in range(dim)]
+                        if dim == 3:
+                            axes = [a[np.sort(np.unique(np.concatenate([cidx[d], rng.choice(40, 4)])))] for d, a in enumerate(axes)]   # keep the grid small
+                            at = [tuple(int(np.argmin(np.abs(axes[d] - cp[d, i]))) for d in range(dim)) for i in range(nc)]
+                        else:
+                            at = [tuple(int(cidx[d, i]) for d in range(dim)) for i in range(nc)]
+                        ctx.count(("zero-lag", ctor, variant, dim), hist=dict(probe="zero-lag", kind="grid " + ctor, variant=variant, dim=dim))
+                        kr.delete_fields()
+                        c = gs.CondSRF(kr, seed=11, mode_no=32)
+                        f = c(tuple(axes), mesh_type="structured")
+                        check("grid-" + ctor, c, f, at, cv, model, condK, dict(case, grid=ctor))
+                except Exception as e:  # noqa
+                    ctx.violation("probe: zero-lag window", "exception %r" % (e,), case, key="zero-lag:exception")
+
+
+def true_variance_probe(ctx, rng, reps):
+    """field == kriging estimate + sqrt(TRUE kriging variance / var) * unconditional field of the same seed, with estimate and
+    variance from an independent dense solve of the kriging system (numpy), at targets far from the data and in extrapolation
+    regions, where the variance of the unbiased variants exceeds the sill.  Isotropic models, no nugget, no normalizer."""
+    import gstools as gs
+    eps = np.finfo(float).eps
+    for rep in range(reps):
+        for variant in ("Simple", "Ordinary", "Universal", "ExtDrift", "Detrended", "Krige:lin+ext", "Krige:lin+ext:unb"):
+            for dim in (1, 2, 3):
+                mcls = [gs.Exponential, gs.Gaussian, gs.Spherical, gs.Stable][int(rng.integers(4))]
+                model = mcls(dim=dim, var=float(rng.uniform(0.5, 2)), len_scale=float(rng.uniform(0.5, 1.5)))
+                n = dim + 5
+                cp = rng.uniform(0, 4, size=(dim, n))
+                cv = rng.normal(size=n) * 2
+                # targets: near, beyond a correlation length, far away (extrapolation)
+                tgt = np.hstack([rng.uniform(0, 4, size=(dim, 4)), rng.uniform(5, 9, size=(dim, 4)), rng.uniform(-40, 60, size=(dim, 4))])
+                efun = lambda *x: 0.3 * np.asarray(x[0]) + 0.1 + 0.2 * np.sin(np.asarray(x[-1]))      # noqa: E731
+                mean, F, F0, unb, ckw, data = 0.0, [], [], True, {}, cv.copy()
+                if variant == "Simple":
+                    mean = float(rng.normal())
+                    kr, unb, data = gs.krige.Simple(model, cp, cv, mean=mean), False, cv - mean
+                elif variant == "Ordinary":
+                    kr = gs.krige.Ordinary(model, cp, cv)
+                elif variant == "Universal":
+                    kr = gs.krige.Universal(model, cp, cv, "linear")
+                    F, F0 = [cp[d] for d in range(dim)], [tgt[d] for d in range(dim)]
+                elif variant == "ExtDrift":
+                    kr = gs.krige.ExtDrift(model, cp, cv, efun(*cp))
+                    F, F0, ckw = [efun(*cp)], [efun(*tgt)], dict(ext_drift=efun(*tgt))
+                elif variant == "Detrended":
+                    tr = trend_fn(0.4)
+                    kr, unb, data = gs.krige.Detrended(model, cp, cv, tr), False, cv - tr(*cp)
+                else:
+                    unb = variant.endswith(":unb")
+                    kr = gs.krige.Krige(model, cp, cv, drift_functions="linear", ext_drift=efun(*cp), unbiased=unb)
+                    F, F0, ckw = [cp[d] for d in range(dim)] + [efun(*cp)], [tgt[d] for d in range(dim)] + [efun(*tgt)], dict(ext_drift=efun(*tgt))
+                # ---- the kriging system, written down independently
+                D = np.sqrt(((cp[:, :, None] - cp[:, None, :]) ** 2).sum(0))
+                D0 = np.sqrt(((cp[:, :, None] - tgt[:, None, :]) ** 2).sum(0))
+                blocks = ([np.ones(n)] if unb else []) + F
+                m = len(blocks)
+                K = np.zeros((n + m, n + m))
+                K[:n, :n] = model.var * model.cor(D / model.len_scale) if False else model.covariance(D)
+                k0 = np.zeros((n + m, tgt.shape[1]))
+                k0[:n] = model.covariance(D0)
+                for a, (row, row0) in enumerate(zip(blocks, ([np.ones(tgt.shape[1])] if unb else []) + F0)):
+                    K[n + a, :n] = K[:n, n + a] = row
+                    k0[n + a] = row0
+                condK = float(np.linalg.cond(K))
+                key = ("true-variance", variant, dim, mcls.__name__)
+                if not condK < 1e8:
+                    ctx.count(None, hist=dict(probe="true-variance:skipped (kriging matrix numerically singular)"))
+                    continue
+                lam = np.linalg.solve(K, k0)
+                est = lam[:n].T @ data                                         # raw kriging estimate (before mean / trend are added back)
+                var_true = model.sill - np.einsum("ij,ij->j", k0, lam)          # NOT bounded by the sill for the unbiased variants
+                seed = int(rng.integers(1, 10 ** 6))
+                ctx.count(key, hist=dict(probe="true-variance", variant=variant, dim=dim, model=mcls.__name__,
+                                         variance_above_sill=bool(np.any(var_true > 1.05 * model.sill))))
+                case = dict(probe="true-variance", variant=variant, dim=dim, model=repr(model), seed=seed, cond_pos=cp.tolist(), cond_val=cv.tolist(),
+                            targets=tgt.tolist(), kriging_matrix_cond=condK, true_variance_over_sill=(var_true / model.sill).tolist())
+                try:
+                    c = gs.CondSRF(kr, seed=seed, mode_no=64)
+                    f = np.asarray(c(tgt, post_process=False, **ckw))
+                    u = np.asarray(gs.SRF(model, seed=seed, mode_no=64)(tgt, post_process=False, store=False))
+                except Exception as e:  # noqa
+                    ctx.violation("probe: true kriging variance", "exception %r" % (e,), case, key="true-variance:exception:" + variant)
+                    continue
+                ok = var_true > 0.05 * model.sill        # away from the data (sqrt of a tiny variance amplifies solver noise)
+                ref = est + np.sqrt(np.maximum(var_true, 0) / model.var) * u
+                tol = 1e4 * eps * condK * (1 + np.abs(ref) + np.abs(u)) + 1e-9
+                if not np.all(np.abs(f - ref)[ok] <= tol[ok]):
+                    j = int(np.argmax(np.where(ok, np.abs(f - ref) - tol, -np.inf)))
+                    ctx.violation("probe: true kriging variance",
+                                  "%s: field %r != kriging estimate %r + sqrt(true kriging variance %.4g / var %.4g) * unconditional field %r = %r "
+                                  "at target %d (true variance / sill = %.3g)" % (variant, float(f[j]), float(est[j]), float(var_true[j]), model.var, float(u[j]),
+                                                                                 float(ref[j]), j, float(var_true[j] / model.sill)),
+                                  dict(case, target=j), key="true-variance:" + variant)
+
+
 def corpus_cases():
     d = os.path.join(C.VERIF, "corpus", "C07")
     out = []
@@ -1415,6 +1575,8 @@ def run(ctx, only_history=None):
         window_probe(ctx, rng)
         partial_pos_probe(ctx, rng, 3 if thorough else 1)
         multi_object_probe(ctx, rng, 4 if thorough else 1)
+        zero_lag_probe(ctx, rng, 3 if thorough else 1)
+        true_variance_probe(ctx, rng, 4 if thorough else 1)
         cond_err_probe(ctx, rng, 4 if thorough else 1)
         C.log("[C07]   probes done: %.1fs" % (time.time() - t0))
     finally:
